@@ -99,23 +99,24 @@ type c01issStep struct {
 }
 
 type c01issObs struct {
-	Cfgs        [][]int      `json:"-"`
-	Init        [][]int      `json:"-"`
-	Steps       []c01issStep `json:"steps"`
-	Results     []int        `json:"results"`
-	Seen        []int        `json:"seen"`
-	Final       [][]int      `json:"final"`
-	RwLeft      int          `json:"rw_left"`
-	LastPresent int          `json:"last_clean_present"`
-	Held        int          `json:"held_locks"`
-	Recorded    int          `json:"recorded_locks"`
-	Issues      int          `json:"issues"`
-	Overlap     bool         `json:"overlap"`
-	SaveFault   bool         `json:"save_fault"`
-	Deadlock    bool         `json:"deadlock"`
-	Sched       []int        `json:"-"`
-	Names       []string     `json:"names"`
-	LockNames   []string     `json:"lock_names"`
+	Cfgs         [][]int      `json:"-"`
+	Init         [][]int      `json:"-"`
+	Steps        []c01issStep `json:"steps"`
+	Results      []int        `json:"results"`
+	Seen         []int        `json:"seen"`
+	Final        [][]int      `json:"final"`
+	RwLeft       int          `json:"rw_left"`
+	LastPresent  int          `json:"last_clean_present"`
+	Held         int          `json:"held_locks"`
+	Recorded     int          `json:"recorded_locks"`
+	AfterCleanup int          `json:"after_cleanup"` // locks still held + still recorded after CleanUpOwnLocks
+	Issues       int          `json:"issues"`
+	Overlap      bool         `json:"overlap"`
+	SaveFault    bool         `json:"save_fault"`
+	Deadlock     bool         `json:"deadlock"`
+	Sched        []int        `json:"-"`
+	Names        []string     `json:"names"`
+	LockNames    []string     `json:"lock_names"`
 }
 
 type c01Intern struct {
@@ -1152,6 +1153,12 @@ func c01RunIssCase(cs c01issCase) (*c01issObs, error) {
 	}
 	o.Held = len(e.b.HeldLocks())
 	o.Recorded = certmagic.VerifLocksHeldCount()
+	if o.Held > 0 || o.Recorded > 0 {
+		// what a process does at exit: everything that is still held must be in the record and get released
+		e.b.GetLog().SetHook(nil)
+		certmagic.CleanUpOwnLocks(context.Background(), zap.NewNop())
+		o.AfterCleanup = len(e.b.HeldLocks()) + certmagic.VerifLocksHeldCount()
+	}
 	o.Names = e.names.l
 	o.LockNames = e.lockT.l
 	return o, nil
@@ -1202,7 +1209,7 @@ func c01issWire(mode int, o *c01issObs) string {
 			enc.Int(v)
 		}
 	}
-	enc.Int(o.RwLeft).Int(o.LastPresent).Int(o.Held).Int(o.Recorded).Int(c01B2i(o.Deadlock))
+	enc.Int(o.RwLeft).Int(o.LastPresent).Int(o.Held).Int(o.Recorded).Int(c01B2i(o.Deadlock)).Int(o.AfterCleanup)
 	return enc.String()
 }
 
